@@ -545,6 +545,19 @@ def _returns_same_word(F, key):
     return True
 
 
+def union_tag_premise(ctx, rep):
+    """Premise of C14 for `ArcUnion`: its PartialEq and Debug impls compare / print what `borrow()` lends, so they see the value the
+    union holds only if the variant test reads exactly the tag the constructors stored and `borrow` strips exactly that tag (R-TAG,
+    evaluated over sample words and payload alignments). Clone/Drop arms (R-ARMS) are not needed for that and are not included."""
+    for tag, F, E in ctx.each():
+        u = F.adts.get(F.handle_paths.get("ArcUnion", ""))
+        if not u:
+            continue
+        gen = [g["name"] for g in u["generics"] if g["kind"] == "type"]
+        tag_rules(F, rep, tag, gen)
+    rep.floor("R-TAG", 5, "2 constructors, is_first, is_second, strip")
+
+
 def union_dispatch(ctx, rep):
     """Premise of every count argument that includes `ArcUnion` owners (C01/C03/C04): the union finds the block - and so the count
     word - of the `Arc` it was made from. The constructors store `into_raw | tag`, the test reads exactly the tag, `borrow` strips
